@@ -80,12 +80,20 @@ struct CallRec {
     bool overrun = false;     // harness-side: len > free-1 at call time
 };
 
+// the response terminator of this build: a literal in four configurations, a run-time pointer in configuration `user`
+// (set_line_ending chooses among CRLF, LF, CR there and is a no-op elsewhere)
+void set_line_ending(int which);
+inline std::string line_ending() { return std::string(SCPI_LINE_ENDING); }
+
 struct WorldCfg {
     int inbuf = 256;
     int queue = 4;
     int heap = 64;
     int wr_mode = 0;       // 0 full, 1 short (half), 2 zero, 3 (size_t)-1
     int flush_err = 0;     // flush returns SCPI_RES_ERR
+    // identification strings given to SCPI_Init: lengths of the four fields; -1 = the default of this harness
+    // ("VERIF","SIM",NULL,"01-02"), -2 = NULL field
+    int idn_len[4] = {-1, -1, -1, -1};
     bool with_units = true;
     bool custom_units = false;   // the application's own unit table: the standard entries plus entries spelled in mixed case ("mVpp")
     bool with_control = true;
@@ -108,6 +116,7 @@ struct World {
     // command table
     std::deque<std::string> patterns;
     std::vector<scpi_command_t> table;
+    std::string idn_store[4];
     std::vector<scpi_command_t> alt_table;   // a second command set the application can point the context at (command-language switch)
     bool filling_alt = false;                // add_command & co. fill alt_table while set
     void use_alt_table(bool alt) { ctx->cmdlist = alt ? alt_table.data() : table.data(); }
@@ -134,7 +143,7 @@ struct World {
     std::function<void(World &, const char *where)> observer;       // after each handler, at unit/message boundaries
     std::function<void(World &, int val)> srq_observer;             // inside control(SRQ)
     std::function<void(World &, int code)> err_observer;            // inside error callback
-    std::function<void(World &)> write_hook;                        // inside the write callback, after the bytes were taken (firmware reacting to its own transmit path)
+    std::function<void(World &)> write_hook;                        // inside the write callback, before the bytes are taken (firmware doing other work in its transmit path)
 
     explicit World(const WorldCfg &c);
     ~World();
